@@ -87,8 +87,9 @@ def gen_heap(rng, z):
     return heap
 
 
-def gen_call(rng, heap, z, by_cat):
-    e = rng.weighted([(x, x["weight"]) for x in registry.ENTRIES])
+def gen_call(rng, heap, z, by_cat, e=None):
+    if e is None:
+        e = rng.weighted([(x, x["weight"]) for x in registry.ENTRIES])
     a = {}
     for param, cats in e["arrays"]:
         cat = rng.choice(cats)
@@ -105,13 +106,19 @@ def gen_call(rng, heap, z, by_cat):
             if cat in common:
                 a[p1] = a[p0]
     return {"f": e["name"], "a": a, "s": e["scalars"](rng, z), "poison": rng.chance(0.3), "amb": rng.randrange(2 ** 31),
-            "scribble": rng.chance(0.35)}
+            "scribble": rng.chance(0.35), "omit": rng.sub("omit").chance(0.3)}
 
 
 def gen_plan(rng, tier, index=0):
     z = {"N": rng.choice([4, 6, 8] + ([10, 12, 16] if tier == "thorough" else [])), "M": rng.choice([6, 8, 11] + ([17, 30] if tier == "thorough" else [])),
          "K": rng.choice([2, 3] + ([5] if tier == "thorough" else []))}
     heap = gen_heap(rng.sub("heap"), z)
+    if index % 2 == 0:
+        # programs with a sweeping caller (below) hold every 2-D category in both sizes
+        for cat in ("img2d", "cplx2d", "mask2d"):
+            two = [h for h in heap if h["cat"] == cat and h["layout"] != "frame_of"][:2]
+            for h, m in zip(two, (3, 1)):
+                h["fill"] = h["fill"] - h["fill"] % 4 + m
     by_cat = {}
     for i, h in enumerate(heap):
         by_cat.setdefault(h["cat"], []).append(i)
@@ -140,6 +147,29 @@ def gen_plan(rng, tier, index=0):
             else:
                 prog.append(gen_call(r, heap, z, by_cat))
         progs.append(prog)
+    if index % 2 == 0:
+        # a sweeping caller (every second program): one function after the other - chosen by the run index, so that every
+        # registered function is swept within ~2 x len(ENTRIES) runs - is called with the same scalars, defaults left out, on
+        # every array it accepts for its first array parameter (two image sizes, several dtypes and layouts). State that the
+        # first call pins (a mutated default argument, a cache keyed on too little) shows when the order stage reverses it.
+        r = rng.sub("sweep")
+        prog = []
+        for j in range(3):
+            e = registry.ENTRIES[(index // 2 + 31 * j) % len(registry.ENTRIES)]
+            if not e["arrays"]:
+                continue
+            st0 = gen_call(r, heap, z, by_cat, e)
+            p0, cats0 = e["arrays"][0]
+            cands = [i for c in cats0 if c for i in by_cat.get(c, [])]
+            for i in cands[:5]:
+                st = dict(st0)
+                st["a"] = dict(st0["a"])
+                st["a"][p0] = i
+                st.update({"omit": True, "poison": False, "scribble": False})
+                prog.append(st)
+        if prog:
+            progs.append(prog)
+            n_callers += 1
     # the scheduler interleaves the callers call by call
     r = rng.sub("sched")
     steps, idx = [], [0] * n_callers
@@ -195,6 +225,8 @@ def _content(cat, z, fill):
     rs = numpy.random.RandomState(fill % (2 ** 32))
     N, M, K = z["N"], z["M"], z["K"]
     if cat == "img2d":
+        if fill % 4 == 3:
+            N = N + 4            # programs hold images of two sizes
         a = rs.random_sample((N, N)) * 100
         a[rs.random_sample((N, N)) < 0.1] = 0.0
         a[rs.randint(N), rs.randint(N)] += 300
@@ -203,6 +235,8 @@ def _content(cat, z, fill):
             a[...] = 0.0
         elif u < 0.1:
             a[...] = 7.0
+        elif u < 0.16:
+            a[rs.randint(N), rs.randint(N)] = numpy.nan          # a dead pixel flagged as NaN
         return a
     if cat == "img3d":
         a = rs.random_sample((K, N, N)) * 100
@@ -210,6 +244,8 @@ def _content(cat, z, fill):
         for k in range(K):
             a[k, rs.randint(N), rs.randint(N)] += 300
         u = rs.random_sample()
+        if u > 0.93:
+            a[rs.randint(K), rs.randint(N), rs.randint(N)] = numpy.nan
         if u < 0.12:
             a[rs.randint(K)] = 0.0            # an un-illuminated frame
         elif u < 0.2:
@@ -218,6 +254,8 @@ def _content(cat, z, fill):
     if cat == "img4d":
         return rs.random_sample((2, K, N, N)) * 100
     if cat == "cplx2d":
+        if fill % 4 == 3:
+            N = N + 4
         return rs.normal(size=(N, N)) + 1j * rs.normal(size=(N, N))
     if cat == "cplx3d":
         return rs.normal(size=(K, N, N)) + 1j * rs.normal(size=(K, N, N))
@@ -226,6 +264,8 @@ def _content(cat, z, fill):
     if cat == "vec_pos":
         return rs.uniform(0.1, 10, M)
     if cat == "mask2d":
+        if fill % 4 == 3:
+            N = N + 4
         a = (rs.random_sample((N, N)) < 0.7).astype(float)
         a[0, 0] = 1
         a[N // 2, N // 2] = 1
@@ -379,55 +419,7 @@ def results_close(r1, r2, rtol=1e-9, single=False):
 # ----------------------------------------------------------------------------------------------
 # environment faults
 # ----------------------------------------------------------------------------------------------
-class Poison(object):
-    """numpy.empty / empty_like return buffers pre-filled with a different large value per allocation, but only
-    when the calling frame is aotools code (workspace arrays inside NumPy/SciPy are never touched). Legal:
-    `empty` promises nothing about the contents."""
-
-    def __init__(self):
-        import numpy
-        self.np = numpy
-        self.real_empty = numpy.empty
-        self.real_empty_like = numpy.empty_like
-        self.count = 0
-        self.on = False
-        self.hits = 0
-
-    def _from_aotools(self):
-        f = sys._getframe(2)
-        return f.f_code.co_filename.startswith(AOT_DIR[0])
-
-    def _fill(self, a):
-        self.count += 1
-        self.hits += 1
-        try:
-            if a.dtype.kind in "fc":
-                a[...] = 1.0e6 * (self.count + 1) + 0.5
-            elif a.dtype.kind in "iu":
-                a[...] = 1000 + self.count
-        except Exception:
-            pass
-        return a
-
-    def empty(self, *args, **kw):
-        a = self.real_empty(*args, **kw)
-        if self.on and self._from_aotools():
-            self._fill(a)
-        return a
-
-    def empty_like(self, *args, **kw):
-        a = self.real_empty_like(*args, **kw)
-        if self.on and self._from_aotools():
-            self._fill(a)
-        return a
-
-    def install(self):
-        self.np.empty = self.empty
-        self.np.empty_like = self.empty_like
-
-    def uninstall(self):
-        self.np.empty = self.real_empty
-        self.np.empty_like = self.real_empty_like
+Poison = seams.Poison
 
 
 class LineMonitor(object):
@@ -531,19 +523,22 @@ def execute(plan, keep_log=False):
         for i in range(len(heap)):
             snaps[i] = snap(heap[i])
 
-    def do_call(e, A, S, amb, use_poison, monitor_labels):
-        """one call of the real function: ambient RNG pinned, optional poison, line monitor on the argument arrays"""
+    def do_call(e, A, S, amb, use_poison, monitor_labels, omit=False):
+        """one call of the real function: ambient RNG pinned, optional poison, line monitor on the argument arrays;
+        omit: arguments that only say 'use the default' are left out, so that the function's own default objects are used"""
         numpy.random.seed(amb)
+        fn = registry.omit_defaults(e["fn"]) if omit else e["fn"]
         poison.on = bool(use_poison)
         mon = LineMonitor(monitor_labels)
         try:
             with mon:
                 try:
-                    out = ("ok", canon(e["call"](e["fn"], A, S), []))
+                    out = ("ok", canon(e["call"](fn, A, S), []))
                 except registry.ArgumentContainerModified as ex:
                     out = ("raised", "ArgumentContainerModified:" + str(ex))
                     res.violate("modified", "C20:argument-modified:%s:%s(list)" % (e["name"].split(".")[-1], ex),
-                                "%s replaced elements of the list '%s' it was given" % (e["name"].split(".")[-1], ex), -1)
+                                "%s changed the argument '%s' it was given (a list whose elements were replaced, or an array / dict of "
+                                "arrays built by the caller just before the call)" % (e["name"].split(".")[-1], ex), -1)
                 except Exception as ex:
                     out = ("raised", type(ex).__name__ + (":read-only" if "read-only" in str(ex) else ""))
         finally:
@@ -653,11 +648,13 @@ def _run_program(plan, res, log, z, specs, heap, snaps, used, last_user, seen, p
                 res.count("fault.same_array_in_two_slots")
             if st.get("poison"):
                 res.count("fault.poisoned_empty_armed")
+            if st.get("omit"):
+                res.count("op.call_with_defaults_left_out")
             watched = [(label_of[i], heap[i], snaps[i]) for i in sorted(set(idx.values()))]
             hits0 = poison.hits
             numpy.random.seed(st["amb"])
             amb0 = ambient_state()
-            r1, mon = do_call(e, A, S, st["amb"], st.get("poison"), watched)
+            r1, mon = do_call(e, A, S, st["amb"], st.get("poison"), watched, st.get("omit"))
             amb1 = ambient_state()
             for key in amb0:
                 if amb0[key] != amb1[key]:
@@ -688,7 +685,7 @@ def _run_program(plan, res, log, z, specs, heap, snaps, used, last_user, seen, p
             # ---- copy-call: fresh copies of the arguments (new identities, writable)
             C = copies(A)
             csn = dict((p, snap(a)) for p, a in C.items())
-            r2, _ = do_call(e, C, S, st["amb"], st.get("poison"), [])
+            r2, _ = do_call(e, C, S, st["amb"], st.get("poison"), [], st.get("omit"))
             ro_raise = r1[0] == "raised" and r1[1].endswith(":read-only")
             for p, a in C.items():
                 if snap(a) != csn[p]:
@@ -704,7 +701,7 @@ def _run_program(plan, res, log, z, specs, heap, snaps, used, last_user, seen, p
                             "(state keyed by array identity, or dependence on uninitialised memory)" % (fname, S), si)
             # ---- repeat-call memory
             if not e["random"]:
-                key = (st["f"], tuple(sorted((p, i, versions[i]) for p, i in idx.items())), repr(sorted(S.items())), st["amb"])
+                key = (st["f"], tuple(sorted((p, i, versions[i]) for p, i in idx.items())), repr(sorted(S.items())), st["amb"], bool(st.get("omit")))
                 rk = result_key(r1)
                 if key in seen:
                     res.count("probe.repeated_call_compared")
@@ -777,12 +774,12 @@ def run_batch(res, log, si, st, e, fname, A, S, heap, specs, do_call, check_heap
         for k in range(stack.shape[0]):
             Ak = dict(A)
             Ak[b["param"]] = stack[k]
-            r, _ = do_call(e, Ak, S, st["amb"], False, [])
+            r, _ = do_call(e, Ak, S, st["amb"], False, [], st.get("omit"))
             check_heap(si, fname, set(idx.values()), label_of)        # flags a modification and restores the heap
             items.append(r)
 
     def call_stack():
-        r = do_call(e, A, S, st["amb"], False, [])[0]
+        r = do_call(e, A, S, st["amb"], False, [], st.get("omit"))[0]
         check_heap(si, fname, set(idx.values()), label_of)
         return r
 
